@@ -439,6 +439,11 @@ func SerNilFunc(fn *ir.Function, res *nilness.Result) NilFunc {
 	for i := 0; i < sig.Results().Len(); i++ {
 		t := sig.Results().At(i).Type()
 		p := typeutil.IsPointerLike(t)
+		if typeparams.IsTypeParam(t) {
+			// whatever the analysis thinks of the type parameter, an instantiation may be pointer-like: keep the
+			// function so that its fact is compared with executions of its instantiations
+			p = true
+		}
 		anyPtr = anyPtr || p
 		out.ResultInfo = append(out.ResultInfo, [2]bool{p, types.IsInterface(t) && !typeparams.IsTypeParam(t)})
 		n := res.Nilness(obj, i)
